@@ -5,8 +5,11 @@ for d in ${SEEDS:-seeded/*/}; do
   id=$(basename "$d"); prop=${id%%-*}
   [ -f "$d/patch.diff" ] || continue
   git -C /repo apply "$(pwd)/$d/patch.diff" || { echo "$id: patch does not apply"; continue; }
+  cp "evidence/$prop.json" "/tmp/.evidence_$prop.json" 2>/dev/null
   out=$(./check "$prop" 2>&1); rc=$?
   git -C /repo checkout -- .
+  # the evidence file of a run on a seeded tree is not evidence about /repo: put the clean one back
+  mv "/tmp/.evidence_$prop.json" "evidence/$prop.json" 2>/dev/null
   echo "$out" | grep -E "^VIOLATION|^OK property|^UNDECIDED" | head -3 > "$d/check_result.txt"
   echo "exit=$rc" >> "$d/check_result.txt"
   echo "$id: exit=$rc $(echo "$out" | grep -c '^VIOLATION') violation line(s)"
